@@ -522,6 +522,17 @@ func judge(f *fixture, c C20Case) ev.Outcome {
 	if related {
 		o.Classes = append(o.Classes, "prefix_related_name")
 	}
+	o.Classes = append(o.Classes, nameLenClass(c.Ctr))
+	for i := range c.Anns {
+		a := &c.Anns[i]
+		if a.Scope == scopeCtr && a.Target != c.Ctr && (atCut(a.Target, c.Ctr) || atCut(c.Ctr, a.Target)) {
+			o.Classes = append(o.Classes, "sibling_at_length_cut")
+			if app[a.Family] == nil || app[a.Family].Scope != scopeCtr {
+				o.Classes = append(o.Classes, "sibling_at_length_cut_without_own_key")
+			}
+			break
+		}
+	}
 	if a := app[famRlim]; a != nil && a.Ill == "" {
 		for _, r := range a.Rlimits {
 			u := strings.ToUpper(r.Type)
@@ -891,6 +902,77 @@ func TestExh_C20(t *testing.T) {
 		}
 	}
 	r.SetExtra("exhaustive_key_presence_combinations", n)
+	r.SetExtra("name_length_sweep_requests", sweepNameLengths(t, r))
 	r.SetExtra("exhaustive", false) // only the key-presence sub-domain is enumerated
 	r.SetExtra("exhaustive_subdomain", "per plugin option set (6) and key family (4), all 32 presence combinations of {container key for this container, for a prefix-named container, for an extension-named container, pod key, bare key}")
+}
+
+// sweepNameLengths: created containers with names of every boundary length (plain, and a
+// boundary-length stem plus separator and suffix), each with every sibling at the cut points
+// and its extensions; per family the container-scoped key is present for the sibling only,
+// for both, or for neither, with and without a pod-scoped key. Default plugin options.
+func sweepNameLengths(t *testing.T, r *ev.Recorder) int {
+	var created []string
+	for _, l := range nameLengths {
+		created = append(created, fillName(0, l))
+	}
+	for _, l := range []int{51, 52, 53, 62, 63} {
+		for _, sep := range []string{"-", ".", "_"} {
+			created = append(created, fillName(1, l)+sep+"debug")
+		}
+	}
+	payload := func(fam, scope, target, tag string, i int) Ann {
+		a := Ann{Family: fam, Scope: scope, Target: target, Style: "block"}
+		switch fam {
+		case famDev:
+			a.Devices = []Dev{{Path: "/dev/" + tag, Type: "c", Major: int64(20 + i), Minor: int64(i)}}
+		case famCDI:
+			a.CDI = []string{"vendor.com/device=" + tag}
+		case famMnt:
+			a.Mounts = []Mnt{{Source: "/src/" + tag, Destination: "/mnt/" + tag, Type: "bind", Options: []string{"ro"}}}
+		case famRlim:
+			a.Rlimits = []Rlim{{Type: rlimitNames[i], Hard: u64p(uint64(200 + i)), Soft: u64p(uint64(i))}}
+		}
+		a.Text = (&renderer{ch: fixedChooser{}, style: "block"}).render(a.node())
+		return a
+	}
+	n := 0
+	for _, ctr := range created {
+		hot, rest := boundarySiblings(ctr)
+		run := func(fam, sib, presence string, pod bool) {
+			c := C20Case{Ctr: ctr}
+			if presence != "neither" {
+				c.Anns = append(c.Anns, payload(fam, scopeCtr, sib, "sibling", 1))
+			}
+			if presence == "both" {
+				c.Anns = append(c.Anns, payload(fam, scopeCtr, ctr, "own", 2))
+			}
+			if pod {
+				c.Anns = append(c.Anns, payload(fam, scopePod, "", "pod", 3))
+			}
+			raw := ev.Snapshot(c)
+			r.Journal(raw)
+			o := runC20(c)
+			r.ClearJournal()
+			o.Classes = append(o.Classes, "sweep:name_length")
+			r.Record(raw, o)
+			if o.Fail != "" {
+				t.Fatalf("C20: %s", o.Fail)
+			}
+			n++
+		}
+		for _, fam := range families {
+			run(fam, "", "neither", false)
+			run(fam, "", "neither", true)
+			for _, sib := range hot { // what is left of the name at a cut point, "-debug", "x"
+				run(fam, sib, "sibling", false)
+				run(fam, sib, "sibling", true)
+				run(fam, sib, "both", false)
+			}
+			for _, sib := range rest { // untrimmed cuts and other relatives
+				run(fam, sib, "sibling", false)
+			}
+		}
+	}
+	return n
 }
